@@ -235,52 +235,59 @@ class World:
 
     # -- projection ------------------------------------------------------------
     def project(self):
-        cell = self.cell
-        servers = {}
-        for s, srv in self.servers.items():
-            in_tree = srv.parent is not None
-            servers[s] = dict(
-                cap=ivec(srv.init_capacity), free=ivec(srv.free_capacity),
-                state=srv.state.value, since=rel(srv.get_state()[1]),
-                label=sorted(x for x in srv.labels if x is not None)[0] if srv.labels else '',
-                traits=unmask(srv.traits.traits), vu=rel(srv.valid_until),
-                parent=srv.parent.name if in_tree else '',
-                apps=sorted(srv.apps.keys()),
-                ctr={k: int(n) for k, n in srv.affinity_counters.items() if n != 0})
-        buckets = {}
-        for b, bk in self.buckets.items():
-            buckets[b] = dict(
-                level=self.blevel[b], parent=self.bparent[b], free=ivec(bk.free_capacity),
-                traits=unmask(bk.traits.traits), labels=sorted(x for x in bk.labels if x),
-                vu=rel(bk.valid_until),
-                ctr={k: int(n) for k, n in bk.affinity_counters.items() if n != 0})
-        alloc_name = {id(al): n for n, al in self.allocs.items()}
-        apps = {}
-        for a, app in cell.apps.items():
-            al = app.allocation
-            lim = {k: int(v) for k, v in app.affinity.limits.items() if v != float('inf')}
-            apps[a] = dict(
-                demand=ivec(app.demand), prio=int(app.priority), aff=app.affinity.name,
-                limits=lim, alloc=alloc_name.get(id(al), ''),
-                label=(al.label if al is not None and al.label else ''),
-                server=app.server or '', identity=-1 if app.identity is None else int(app.identity),
-                group=app.identity_group or '', lease=int(app.lease),
-                expiry=rel(app.placement_expiry),
-                retention=-1 if app.data_retention_timeout is None else int(app.data_retention_timeout),
-                once=bool(app.schedule_once), evicted=bool(app.evicted), renew=bool(app.renew),
-                unschedule=bool(app.unschedule), blacklisted=bool(app.blacklisted),
-                traits=unmask(app.traits), own=unmask(app._traits),
-                order=int(app.global_order) - ORDER0)
-        groups = {g: dict(count=int(ig.count), available=sorted(int(x) for x in ig.available))
-                  for g, ig in cell.identity_groups.items()}
-        allocs = {}
-        for n, al in self.allocs.items():
-            allocs[n] = dict(rank=int(al.rank), adj=int(al.rank_adjustment), reserved=ivec(al.reserved),
-                             maxutil=(-1 if al.max_utilization == float('inf')
-                                      else int(al.max_utilization)),
-                             label=al.label or '')
-        return dict(clock=self.v.clock, servers=servers, buckets=buckets, apps=apps,
-                    groups=groups, allocs=allocs)
+        return project_cell(self.cell, self.servers, self.buckets, self.blevel, self.bparent,
+                            self.allocs, self.v.clock, rel, unmask, ORDER0)
+
+
+def project_cell(cell, servers_in, buckets_in, blevel, bparent, allocs_in, clock, relf, traitsf,
+                 order0, rename=lambda x: x):
+    """Abstract state of a scheduler.Cell (DESIGN.md 4.2).  Every redundant view
+    is read separately from the real objects."""
+    servers = {}
+    for s, srv in servers_in.items():
+        in_tree = srv.parent is not None
+        servers[s] = dict(
+            cap=ivec(srv.init_capacity), free=ivec(srv.free_capacity),
+            state=srv.state.value, since=relf(srv.get_state()[1]),
+            label=sorted(x for x in srv.labels if x is not None)[0] if srv.labels else '',
+            traits=traitsf(srv.traits.traits), vu=relf(srv.valid_until),
+            parent=srv.parent.name if in_tree else '',
+            apps=sorted(rename(x) for x in srv.apps.keys()),
+            ctr={k: int(n) for k, n in srv.affinity_counters.items() if n != 0})
+    buckets = {}
+    for b, bk in buckets_in.items():
+        buckets[b] = dict(
+            level=blevel[b], parent=bparent[b], free=ivec(bk.free_capacity),
+            traits=traitsf(bk.traits.traits), labels=sorted(x for x in bk.labels if x),
+            vu=relf(bk.valid_until),
+            ctr={k: int(n) for k, n in bk.affinity_counters.items() if n != 0})
+    alloc_name = {id(al): n for n, al in allocs_in.items()}
+    apps = {}
+    for a, app in cell.apps.items():
+        al = app.allocation
+        lim = {k: int(v) for k, v in app.affinity.limits.items() if v != float('inf')}
+        apps[rename(a)] = dict(
+            demand=ivec(app.demand), prio=int(app.priority), aff=app.affinity.name,
+            limits=lim, alloc=alloc_name.get(id(al), ''),
+            label=(al.label if al is not None and al.label else ''),
+            server=app.server or '', identity=-1 if app.identity is None else int(app.identity),
+            group=app.identity_group or '', lease=int(app.lease),
+            expiry=relf(app.placement_expiry),
+            retention=-1 if app.data_retention_timeout is None else int(app.data_retention_timeout),
+            once=bool(app.schedule_once), evicted=bool(app.evicted), renew=bool(app.renew),
+            unschedule=bool(app.unschedule), blacklisted=bool(app.blacklisted),
+            traits=traitsf(app.traits), own=traitsf(app._traits),
+            order=int(app.global_order) - order0)
+    groups = {g: dict(count=int(ig.count), available=sorted(int(x) for x in ig.available))
+              for g, ig in cell.identity_groups.items()}
+    allocs = {}
+    for n, al in allocs_in.items():
+        mu = al.max_utilization
+        allocs[n] = dict(rank=int(al.rank), adj=int(al.rank_adjustment), reserved=ivec(al.reserved),
+                         maxutil=(-1 if mu == float('inf') else int(mu)),
+                         label=al.label or '')
+    return dict(clock=clock, servers=servers, buckets=buckets, apps=apps,
+                groups=groups, allocs=allocs)
 
 
 def replay(scn, history):
